@@ -11,6 +11,7 @@ mod glide;
 mod graphrun;
 mod lfo;
 mod midi;
+mod pacc;
 mod params;
 mod quant;
 mod ribbon;
@@ -62,6 +63,7 @@ fn main() {
                 "glide" => glide::record(driver, seed, thorough, &mut out),
                 "params" => params::record(driver, seed, thorough, &mut out),
                 "voice" => voice::record(driver, seed, thorough, &mut out),
+                m if m.starts_with("pacc") => pacc::record(m, driver, seed, thorough, &mut out),
                 _ => usage(),
             };
             let n = out.finish();
@@ -84,6 +86,7 @@ fn main() {
                 "glide" => glide::rerun(&lines, &mut out),
                 "params" => params::rerun(&lines, &mut out),
                 "voice" => voice::rerun(&lines, &mut out),
+                m if m.starts_with("pacc") => pacc::rerun(&lines, &mut out),
                 _ => usage(),
             }
             out.finish();
@@ -101,6 +104,10 @@ fn main() {
                 "lfo" => graphrun::run(&g, &mut lfo::GraphTarget::new(), seed, thorough),
                 "ribbon100" => graphrun::run(&g, &mut ribbon::GraphTarget::new(100), seed, thorough),
                 "ribbon500" => graphrun::run(&g, &mut ribbon::GraphTarget::new(500), seed, thorough),
+                m if m.starts_with("pacc") => {
+                    let (w, i) = pacc::parse_module(m).unwrap_or_else(|| usage());
+                    graphrun::run(&g, &mut pacc::GraphTarget::new(w, i), seed, thorough)
+                }
                 _ => usage(),
             };
             std::process::exit(rc);
